@@ -384,6 +384,14 @@ def classify_site(ck, prog, ctx, bb, name, kinds, key):
         for x in walk_deep(e, ctx.prov):
             if x[0] == "agg" and x[2] == "Ok" and x[3]:
                 payload = x[3][0]
+                # what succeeds is what the kernel said: no component of the success value is simply the caller's own argument handed
+                # back (wait4 answers 0 for "still running" and the reaped pid for a wildcard wait - not the pid that was asked about)
+                pl = strip_casts(payload)
+                comps = list(pl[3] or ()) if isinstance(pl, tuple) and pl[0] == "agg" else [pl]
+                echoed = [c for c in comps if isinstance(strip_casts(c), tuple) and strip_casts(c)[0] == "param"]
+                if echoed:
+                    ck.ob("C09.4", f"{key}|success-value-is-the-kernels-answer", False, fn=path, site=ctx.site(bb),
+                          detail=f"the success value of {name} contains the caller's argument {show(echoed[0])} where the kernel's return value belongs")
                 for y in walk(payload):
                     if y[0] == "bin" and any(z[0] == "call" and z[3] == bb and is_raw_syscall(z[1]) for side in (y[2], y[3]) for z in walk(strip_casts(side)) if True):
                         direct = [side for side in (y[2], y[3]) if isinstance(strip_casts(side), tuple) and strip_casts(side)[0] == "call" and strip_casts(side)[3] == bb]
